@@ -11,7 +11,7 @@ MUTATIONS = ["instance-repoint", "instance-repoint-same-name-other-library", "po
              "conn-to-other-instance", "conn-to-other-port-same-instance", "conn-to-other-bit-same-port",
              "conn-to-other-wire-same-cable", "inner-conn-to-other-bit", "instance-repoint",
              "instance-repoint-same-name-other-library",
-             "property-value", "property-removed", "drop-library", "drop-definition", "drop-port",
+             "property-value", "property-value", "property-value", "property-removed", "drop-library", "drop-definition", "drop-port",
              "drop-cable", "drop-instance", "add-library", "add-definition", "add-port", "add-cable",
              "add-instance", "instance-reference-dropped", "instance-reference-gained"]
 
@@ -81,7 +81,10 @@ class C20(Prop):
                 res.label("clone-raised")
                 return res
         else:
-            M = gen_ir.build(case["design"]).netlist
+            import copy
+            # an own copy of the recipe: the builder stores the recipe's data values, and the two
+            # netlists must not share them
+            M = gen_ir.build(copy.deepcopy(case["design"])).netlist
         res.label("copy-" + case["copy"])
         try:
             compare(N, M)
@@ -89,6 +92,7 @@ class C20(Prop):
             res.violate("C20:equal-copy-rejected:%s:%s" % (case["copy"], type(e).__name__), repr(e)[:300])
             return res
         m = case["mutation"]
+        self._copy = case["copy"]
         applied = self.mutate(M, m)
         if not applied:
             res.label("mutation-not-applicable")
@@ -283,6 +287,12 @@ class C20(Prop):
             I = pick(cand, i)
             if I is None:
                 return None
+            if (k % 2 or getattr(self, "_copy", "") == "clone") and kind == "property-value":
+                # edit the stored record in place (a copy that still shares nested data with the
+                # original would change both sides and hide the difference)
+                p = I["EDIF.properties"][j % len(I["EDIF.properties"])]
+                p["value"] = "changed" if p["value"] != "changed" else "changed2"
+                return "%s of %s (in place)" % (kind, I.name)
             props = [dict(p) for p in I["EDIF.properties"]]
             if kind == "property-value":
                 p = props[j % len(props)]
